@@ -20,6 +20,7 @@ def repl(md, header, table_head, rows, stop):
     return md[:i] + header + '\n\n' + table_head + '\n' + '\n'.join(rows) + '\n\n' + md[j:]
 md = repl(md, '### 6.1 Repaired (`fix:` commits in /repo)', '| property | commit | what failed |\n|---|---|---|', rows_fixed, '### 6.2 Known findings')
 md = repl(md, '### 6.2 Known findings (recorded, not repaired)', '| property | key | what fails and why it is not repaired here |\n|---|---|---|', rows_known, 'Pre-existing upstream test failures')
-md = re.sub(r'in `/repo` \(\d+ commits;', 'in `/repo` (%d commits;' % len(rows_fixed), md)
+ncommits = len({r.split('`')[1] for r in rows_fixed})
+md = re.sub(r'in `/repo` \(\d+ commits( for \d+ recorded failures)?;', 'in `/repo` (%d commits for %d recorded failures;' % (ncommits, len(rows_fixed)), md)
 open('/verif/DESIGN.md', 'w').write(md)
 print(len(rows_fixed), 'fixed,', len(rows_known), 'known')
